@@ -1,6 +1,6 @@
 (** Property C16 — the theorems the check counts as obligations.  Nothing but
     statements closed by [exact] and [Print Assumptions]. *)
-From HS Require Import Base.Prelude C16.Model C16.Lists C16.Policies C16.Store C16.Races C16.Seq C16.ModelTTL C16.SoftTTL C16.ModelMT C16.MT.
+From HS Require Import Base.Prelude C16.Model C16.Lists C16.Policies C16.Store C16.Races C16.Seq C16.ModelTTL C16.SoftTTL C16.ModelMT C16.MT C16.ModelPC C16.PC.
 Local Open Scope Z_scope.
 
 (** Every one of the nine eviction policies keeps a duplicate-free tracked-key
@@ -122,3 +122,21 @@ Print Assumptions c16_multitier_capacity_and_policy_keys.
 Theorem c16_multitier_stale_install_refuted : ~ mt_read_after_delete_statement.
 Proof. exact mt_stale_install_refuted. Qed.
 Print Assumptions c16_multitier_stale_install_refuted.
+
+(** PageCache (modelled; capacity only): within capacity and exception-free for
+    every sequence of non-overlapping read_page / write_page / flush. *)
+Theorem c16_pagecache_sequential_capacity_partial : forall c l, 1 <= pcap c -> sequential c psinit l ->
+  let y := prun c psinit l in
+  zlen (pages (pstt y)) <= pcap c /\ perr (pstt y) = false.
+Proof. exact pagecache_sequential_capacity. Qed.
+Print Assumptions c16_pagecache_sequential_capacity_partial.
+
+(** REFUTED (known finding C16-pagecache-overlap): overlapping loads exceed the
+    capacity; a load overwrites a dirty page without write-back. *)
+Theorem c16_pagecache_overlap_capacity_refuted : ~ pagecache_capacity_statement.
+Proof. exact pagecache_overlap_capacity_refuted. Qed.
+Print Assumptions c16_pagecache_overlap_capacity_refuted.
+
+Theorem c16_pagecache_dirty_overwritten_refuted : ~ pagecache_dirty_statement.
+Proof. exact pagecache_load_overwrites_dirty_refuted. Qed.
+Print Assumptions c16_pagecache_dirty_overwritten_refuted.
